@@ -5,7 +5,7 @@
    (and slen elements of src); operands are never modified. *)
 EXTENDS Base
 
-CmpFns    == {"strcmp_s", "strcasecmp_s", "strcoll_s", "strcmpfld_s", "wcscmp_s", "wcsncmp_s", "wcsicmp_s"}
+CmpFns    == {"strcmp_s", "strcasecmp_s", "strcoll_s", "strcmpfld_s", "wcscmp_s", "wcsncmp_s", "wcsicmp_s", "wcscoll_s"}
 MemCmpFns == {"memcmp_s", "memcmp16_s", "memcmp32_s", "wmemcmp_s"}
 FindFns   == {"strstr_s", "strcasestr_s", "wcsstr_s", "strpbrk_s"}
 ChrFns    == {"strchr_s", "strrchr_s", "strfirstchar_s", "strlastchar_s", "memchr_s", "memrchr_s"}
@@ -51,7 +51,7 @@ RECURSIVE CmpMem(_, _, _, _)
 CmpMem(a, d, s, n) == IF n = 0 THEN 0 ELSE IF a[d] # a[s] THEN Sgn(a[d] - a[s]) ELSE CmpMem(a, d + 1, s + 1, n - 1)
 
 CmpOutcomes(e) ==
-  LET hass == e.fn \in {"wcscmp_s", "wcsncmp_s", "wcsicmp_s"}
+  LET hass == e.fn \in {"wcscmp_s", "wcsncmp_s", "wcsicmp_s", "wcscoll_s"}
       V == QViol(e, TRUE, hass)
       n0 == IF hass THEN Min(e.dmax, e.slen) ELSE e.dmax
       n == IF e.fn = "wcsncmp_s" /\ e.n # HUGE THEN Min(n0, e.n) ELSE n0
@@ -229,6 +229,12 @@ StrQueryOutcomes(e) ==
     [] e.fn = "strispassword_s" -> PasswordOutcomes(e)
 (* Known finding: strcoll_s hands both strings to libc strcoll unbounded: dmax is ignored. *)
 PwViol(e) == e.d = NULLP \/ e.dmax = 0 \/ e.dmax = HUGE \/ e.dmax > PwMax \/ e.dmax < PwMin \/ (e.dbos # UNK /\ e.dmax > e.dbos)
+\* the sign an unbounded comparison arrives at: decided inside the arena, or - when both strings run on equal and unterminated
+\* up to the end of the arena - by whatever lies behind it (any sign, unless the read faults)
+UnboundedSigns(e) ==
+  LET n == Len(e.pre) - Max(e.d, e.s) + 1
+      ranoff == \A k \in 0..(n - 1) : e.pre[e.d + k] = e.pre[e.s + k] /\ e.pre[e.d + k] # 0
+  IN IF ranoff THEN {-1, 0, 1} ELSE {CmpStr(e.pre, e.d, e.s, n, "none")}
 StrQueryDeviations(e) ==
   IF e.fn = "strispassword_s" /\ ~PwViol(e) /\ Len(Str(e.pre, e.d, e.dmax)) = e.dmax
   THEN \* Known finding: the loop looks at dest[dmax] before it notices that dmax is used up (the unit tests pass dmax = strlen(dest)):
@@ -251,9 +257,13 @@ StrQueryDeviations(e) ==
        \* against one of [ \ ] ^ _ `
        {[name |-> "Dev_strcasecmp_upper", props |-> {"C10"},
          o |-> WithSg(QOk(e), CmpStr(e.pre, e.d, e.s, e.dmax, "upper"))]}
+  ELSE IF e.fn = "wcscoll_s" /\ QViol(e, TRUE, TRUE) = {}
+  THEN \* the same for the wide function: libc wcscoll on both strings, dmax and smax ignored
+       {[name |-> "Dev_wcscoll_unbounded", props |-> {"C10", "C02"}, o |-> WithSg(QOk(e), k)] : k \in UnboundedSigns(e)} \cup {
+        [name |-> "Dev_wcscoll_unbounded", props |-> {"C02"},
+         o |-> WithFault(Out("err", {-9999}, {<<>>}, Same0(e.pre)), "r", {AnyV})]}
   ELSE IF e.fn = "strcoll_s" /\ QViol(e, TRUE, FALSE) = {}
-  THEN {[name |-> "Dev_strcoll_unbounded", props |-> {"C10", "C02"},
-         o |-> WithSg(QOk(e), CmpStr(e.pre, e.d, e.s, Len(e.pre) - Max(e.d, e.s) + 1, "none"))],     \* as far as the arena reaches
+  THEN {[name |-> "Dev_strcoll_unbounded", props |-> {"C10", "C02"}, o |-> WithSg(QOk(e), k)] : k \in UnboundedSigns(e)} \cup {
         [name |-> "Dev_strcoll_unbounded", props |-> {"C02"},
          o |-> WithFault(Out("err", {-9999}, {<<>>}, Same0(e.pre)), "r", {AnyV})]}
   ELSE {}
